@@ -93,3 +93,6 @@ def run(ctx):
         hdr = [x for x in w.calls() if prog.indirect_callee_slot(w, x) and prog.indirect_callee_slot(w, x)[1] == 'write_header' or x.get('callee') == 'wav_write_header']
         ok = ok and '(current < psf->filelength)' in conds and any('SFM_RDWR' in c_ for c_ in conds) and hdr and all(not w.cfg.dominates(h, t) for h in hdr)
     ctx.ob('RDWR-CLOSE', 'wav_close', ok, w.loc(w.body), 'stale tail truncated only when shorter, header rewritten afterwards' if ok else 'RDWR close truncation guard / order changed', None)
+
+    from engine.run import borrow
+    borrow(ctx, 'C11', ['WH-RESTORE'], 'a header rewrite in SFM_RDWR mode must leave the file position where the next read / write expects it')
